@@ -201,6 +201,8 @@ func cmdCheck(args []string) int {
 			}
 		} else if *tier == "quick" && o.Tier != "quick" {
 			continue
+		} else if o.Tier == "extended" {
+			continue // only on request (--only): obligations that take hours
 		}
 		obls = append(obls, o)
 	}
